@@ -3,6 +3,7 @@ package openapi3
 import (
 	"context"
 	"encoding/json"
+	"errors"
 	"fmt"
 )
 
@@ -93,6 +94,10 @@ func (t *Tag) UnmarshalJSON(data []byte) error {
 // Validate returns an error if Tag does not comply with the OpenAPI spec.
 func (t *Tag) Validate(ctx context.Context, opts ...ValidationOption) error {
 	ctx = WithValidationOptions(ctx, opts...)
+
+	if t.Name == "" {
+		return errors.New("value of name must be a non-empty string")
+	}
 
 	if v := t.ExternalDocs; v != nil {
 		if err := v.Validate(ctx); err != nil {
